@@ -958,6 +958,14 @@ pub fn run_stateless(cfg: &TransportCfg, sc: &mut Sc) {
                 if o.err() != Some("State(Exhausted)") {
                     sc.viol("C09", format!("{}: stateless write under 2^64-1 gave {o:?}", cfg.name));
                 }
+                // the refused call must not have touched the cipher or the buffer (C06, C09)
+                if sc.ex.last_events.iter().any(|e| matches!(e, crate::toy::Ev::Enc { .. })) {
+                    sc.viol("C09", format!("{}: refused stateless write encrypted under nonce 2^64-1", cfg.name));
+                    sc.viol("C06", format!("{}: refused stateless write encrypted under (key, 2^64-1), the pair rekey uses", cfg.name));
+                }
+                if sc.ex.last_buf.iter().any(|b| *b != FILL) {
+                    sc.viol("C09", format!("{}: refused stateless write produced bytes", cfg.name));
+                }
             } else if let Some(m) = o.bytes() {
                 // purity: the same call again gives the same bytes
                 let o2 = sc.ex.st_write(w, n, &p, plen + 16);
